@@ -39,9 +39,12 @@ theorem ot_free_of_quiet {s : Sys} {U : List Tid} (hU : Cluster.Inv s.cl U) {ob 
     have := hU.perm.length_eq
     rw [h2, h3, hq.noBatch] at this
     simpa using this
-  refine ⟨?_, by rw [hlen]; exact hf.machines, by rw [h3]; simpa using hf.limit, ?_, ?_, hf.hot, hf.cold⟩
+  refine ⟨?_, ?_, by rw [h3]; simpa using hf.limit, ?_, ?_, hf.hot, hf.cold⟩
   · rw [hq.tel]
     have := hf.arrays
+    omega
+  · rw [hlen, hq.counter]
+    have := hf.machines
     omega
   · rw [hq.counter]
     have := hf.limit
